@@ -137,6 +137,10 @@ func (tq *WorkerTaskQueue) worker(executor Executor) {
 				tq.lockTopics.Unlock()
 			}
 		}
+		if verifhook.Enabled && len(tasks) > 0 {
+			// between taking a task and asking its owner for the task data
+			verifhook.Yield("taskqueue.afterPop", string(pid), tasks[0].Topic)
+		}
 		for _, task := range tasks {
 			tq.noTaskCond.L.Lock()
 			tq.activeTasks = tq.activeTasks + 1
